@@ -46,4 +46,5 @@ def run(prog: Program, col: Collector, tier: str, refs: Optional[Refs] = None, c
     c04._quantified_guards(prog, col, refs, cat, c04._subs_collections(prog, refs, cat))
     algebra.r_reduce_rules_keep_absent_vars(prog, col, refs, cat, "R08.15")
     algebra.r_contraction_rules_cover_reduced_vars(prog, col, refs, cat, "R08.16")
+    algebra.r_contraction_result_reduces(prog, col, refs, cat, "R08.17")
     return col
